@@ -211,6 +211,15 @@ def run(facts, rep, tier, ctx):
         run_world(facts, rep, wa, {"sites": 16, "observers": 9})
     else:
         rep.fail("R08.4", "async_vfs", "async world present", "async_vfs module not found in the all-features build")
+    # R08.10 a layer may itself be an adapter: what the overlay asks of an altroot layer is what reaches the filesystem behind it
+    # (a copy_file that is really a move removes the lower layer's file during a copy-up)
+    from . import c07 as _c07
+    from ..panics import Discharger as _D8, load_records as _lr8
+    import os as _os8
+    D8 = _D8(facts, _lr8(_os8.path.join(ctx["V"], "rules", "panic_records.json")))
+    for w in (ws, wa):
+        if w.present():
+            _c07.delegation(facts, rep if not w.asyncw else __import__("analysis.props.c10", fromlist=["_Prefixed"])._Prefixed(rep, "A"), w, "R08.10", D8)
     # R08.9 "every mutation lands in the upper layer" also in the literal sense: the path a mutation is applied to is built
     # relative to the write layer (an absolute join restarts at the root of the filesystem the layer lives in — outside the
     # layer, possibly inside a lower one), and no path is built on a layer found by the resolver
